@@ -1157,6 +1157,16 @@ func upperBound(t *Term) (int64, bool) {
 			}
 			return b, true
 		}
+		// min(x, y) written as ite(x < y, x, y): bounded by whichever side has a bound
+		if c := t.Args[0]; (c.Op == "<" || c.Op == "<=") && len(c.Args) == 2 &&
+			c.Args[0].Key() == t.Args[1].Key() && c.Args[1].Key() == t.Args[2].Key() {
+			if ok1 {
+				return a, true
+			}
+			if ok2 {
+				return b, true
+			}
+		}
 	case "+":
 		var sum int64
 		for _, x := range t.Args {
